@@ -64,6 +64,10 @@ const RT_RULE: &str = "fresh process per run; EventLoops with 1-4 event-loop thr
 const RT_REAL: &[&str] = &["core/src/net/{mod,event_loop,join}.rs", "core/src/net/selector (real epoll through mio's Registry)", "core/src/co_pool, core/src/scheduler.rs, coroutine kernel, queues", "core/src/syscall/unix/{usleep,...}.rs (hooked sleeps)"];
 const RT_STUB: &[&str] = &["the waiting part of epoll_wait (simulated)", "std Mutex/Condvar/atomics/thread::spawn/sleep, clocks", "dashmap (simulated shard locks)", "SIGVTALRM delivery (queued, delivered at scheduling points)", "core_affinity (no-op)"];
 
+const SOCKIO_RULE: &str = "fresh process per run, one event loop; one hooked read- or write-family call (recv read recvfrom readv recvmsg pread preadv / send write sendto writev sendmsg pwrite pwritev) on a real socketpair descriptor whose kernel side is a scripted function: response scripts of <=7 entries from {partial n, would-block, EINTR, end of stream, hard error} followed by {deliver everything, silence, EOF, error}; buffers of 0..64 bytes, iovec arrays of 1-5 elements incl. empty ones; blocking or O_NONBLOCK; SO_RCVTIMEO/SO_SNDTIMEO 0/5/50 ms; plain thread or coroutine task; non-trivial = a partial transfer, would-block, EINTR or more than one inner call happened";
+const HOOK_REAL: &[&str] = &["core/src/syscall/unix/*.rs (facade, NIO and raw layers of the hooked calls)", "core/src/net/event_loop.rs (wait_event, wait_just, timed_wait_just)", "core/src/net/selector, real epoll on real socketpairs, fcntl/getsockopt/fstat (real)", "co_pool / scheduler / coroutine kernel underneath"];
+const HOOK_STUB: &[&str] = &["the kernel behind fn_ptr (scripted function) where the scenario scripts responses", "the waiting part of epoll_wait", "std Mutex/Condvar/atomics/threads, clocks", "dashmap (simulated shard locks)"];
+
 pub static PROPS: &[Prop] = &[
     Prop {
         id: "C07",
@@ -186,6 +190,154 @@ pub static PROPS: &[Prop] = &[
         assumptions: COMMON_ASSUME,
         real: RT_REAL,
         stub: RT_STUB,
+    },
+    Prop {
+        id: "C14",
+        level: "exploration",
+        parts: &[Part { scenario: "timed", quick_runs: 20_000, thorough_runs: 300_000, classes: &["returned-early", "returned-late", "wrong-return", "invalid-time-accepted", "hook-call-lost", "crash", "deadlock"] }],
+        quick_wall_s: 50,
+        thorough_wall_s: 600,
+        rule: "fresh process per run, one event loop; one hooked timed wait per run: sleep/usleep/nanosleep/poll/select/pthread_cond_timedwait x timeouts {0, 1us, 999us, 1ms, 7ms, 10ms, 35ms, 1s, 3s} x {plain thread, coroutine task} x optional computing sibling task, and invalid time fields (negative, sub-second field out of range); inner poll/select are scripted 'nothing ready', the inner cond wait sleeps (simulated) to its abstime; elapsed simulated time must lie in [requested, requested + 25 ms + 2%]; non-trivial: every run; distinct = distinct (workload, schedule) fingerprints",
+        assumptions: COMMON_ASSUME,
+        real: HOOK_REAL,
+        stub: HOOK_STUB,
+    },
+    Prop {
+        id: "C15",
+        level: "exploration",
+        parts: &[Part { scenario: "sleepers", quick_runs: 15_000, thorough_runs: 200_000, classes: &["loop-stalled", "returned-early", "crash", "deadlock"] }],
+        quick_wall_s: 50,
+        thorough_wall_s: 600,
+        rule: "fresh process per run, one event loop with room for every task: 1-8 tasks in a hooked usleep/nanosleep of 5..200 ms, 0-2 tasks in a hooked recv on a silent socket (real kernel), optionally a task that computes 1 ms and yields in a loop; every sleeper must finish within its own duration + 45 ms + N ms, the computing task must make at least (shortest sleep / 4 ms) steps meanwhile",
+        assumptions: COMMON_ASSUME,
+        real: HOOK_REAL,
+        stub: HOOK_STUB,
+    },
+    Prop {
+        id: "C16",
+        level: "fault_enumeration",
+        parts: &[Part { scenario: "sockio", quick_runs: 30_000, thorough_runs: 500_000, classes: &["bytes-wrong", "count-wrong", "hook-call-lost", "crash", "deadlock"] }],
+        quick_wall_s: 50,
+        thorough_wall_s: 600,
+        rule: SOCKIO_RULE,
+        assumptions: COMMON_ASSUME,
+        real: HOOK_REAL,
+        stub: HOOK_STUB,
+    },
+    Prop {
+        id: "C17",
+        level: "fault_enumeration",
+        parts: &[Part { scenario: "sockio", quick_runs: 30_000, thorough_runs: 500_000, classes: &["iov-wrong-ranges"] }],
+        quick_wall_s: 50,
+        thorough_wall_s: 600,
+        rule: SOCKIO_RULE,
+        assumptions: COMMON_ASSUME,
+        real: HOOK_REAL,
+        stub: HOOK_STUB,
+    },
+    Prop {
+        id: "C18",
+        level: "fault_enumeration",
+        parts: &[Part { scenario: "sockio", quick_runs: 30_000, thorough_runs: 500_000, classes: &["fd-mode-changed", "nonblocking-waited"] }],
+        quick_wall_s: 50,
+        thorough_wall_s: 600,
+        rule: SOCKIO_RULE,
+        assumptions: COMMON_ASSUME,
+        real: HOOK_REAL,
+        stub: HOOK_STUB,
+    },
+    Prop {
+        id: "C19",
+        level: "fault_enumeration",
+        parts: &[
+            Part { scenario: "sockopt", quick_runs: 20_000, thorough_runs: 300_000, classes: &["setsockopt-failed", "limit-stale", "close-failed", "hook-call-lost", "crash", "count-wrong", "deadlock"] },
+            Part { scenario: "sockio", quick_runs: 10_000, thorough_runs: 200_000, classes: &["socket-timeout"] },
+        ],
+        quick_wall_s: 55,
+        thorough_wall_s: 600,
+        rule: "fresh process per run; histories of <=12/24 operations over 3 descriptor slots: socketpair, hooked setsockopt(SO_RCVTIMEO|SO_SNDTIMEO, 0/1/20/1000/2500 ms), hooked recv of ready data (fills the hook's cache), query of the limit the hook applies (compared with getsockopt on the live descriptor, 0 = unlimited), silent hooked recv timed against the limit, hooked close followed by a new socketpair that reuses the number; from a plain thread or a coroutine task; the child must never abort; non-trivial = an option was set twice / after I/O, a number was reused or a limit was waited out",
+        assumptions: COMMON_ASSUME,
+        real: HOOK_REAL,
+        stub: HOOK_STUB,
+    },
+    Prop {
+        id: "C20",
+        level: "exploration",
+        parts: &[Part { scenario: "ready", quick_runs: 15_000, thorough_runs: 200_000, classes: &["wake-late", "wrong-waiter-woken", "wrong-data", "crash", "deadlock"] }],
+        quick_wall_s: 50,
+        thorough_wall_s: 600,
+        rule: "fresh process per run; 1-3 coroutine tasks on 1-2 event loops, each in a hooked recv (real kernel) on its own socketpair; a listener (attached through an appended read-only door) shows when the target is parked and until when; the peer writes one byte to one descriptor while the target's own wait timeout is still >= 1.5 ms away; the target must return that byte within 1 ms of simulated time and must have been woken by the event (Callback), nobody else may return; optionally a second write for another descriptor",
+        assumptions: COMMON_ASSUME,
+        real: &["core/src/net/selector/{mod,mio_adapter}.rs", "core/src/net/event_loop.rs", "core/src/scheduler.rs (try_resume, check_ready)", "mio Registry + real epoll_ctl/epoll_wait(0) on real socketpairs", "hooked recv (real kernel)"],
+        stub: HOOK_STUB,
+    },
+    Prop {
+        id: "C21",
+        level: "exploration",
+        parts: &[Part { scenario: "interest", quick_runs: 20_000, thorough_runs: 300_000, classes: &["interest-mismatch", "crash", "hook-call-lost", "deadlock"] }],
+        quick_wall_s: 50,
+        thorough_wall_s: 600,
+        rule: "fresh process per run, one event loop; histories of <=15/30 operations over 3 descriptor slots: wait for read / write readiness (zero timeout), remove read / write / both, hooked shutdown(RD|WR|RDWR), hooked close + new socketpair (number reuse), peer writes that make events fire; from a plain thread or a coroutine task; after every operation the EPOLLIN/EPOLLOUT bits registered for every live descriptor (read from /proc/self/fdinfo of the loop's epoll instance) must equal the outstanding interests of a per-descriptor model",
+        assumptions: COMMON_ASSUME,
+        real: &["core/src/net/selector/{mod,mio_adapter}.rs", "core/src/net/mod.rs", "core/src/syscall/unix/{close,shutdown}.rs", "mio Registry + real epoll on real socketpairs"],
+        stub: HOOK_STUB,
+    },
+    Prop {
+        id: "C23",
+        level: "exploration",
+        parts: &[Part { scenario: "grow", quick_runs: 10_000, thorough_runs: 150_000, classes: &["grow-failed", "grow-bookkeeping", "crash"] }],
+        quick_wall_s: 45,
+        thorough_wall_s: 600,
+        rule: "fresh process per run; recursion of depth 1..80/200 with frames of 1/4/16 KiB, every level through maybe_grow_with with one of three (red zone, segment size) pairs, inside a 64 KiB coroutine or on a plain thread with a 192 KiB stack; in half of the runs a panic is raised at a chosen level and caught by the caller, then the same recursion runs again, 1-3 rounds; inside every callback the stack pointer must be in a reported segment with the red zone available, segment lists before and after must be equal, values must come back, the process must survive",
+        assumptions: COMMON_ASSUME,
+        real: &["core/src/coroutine/korosensei.rs (maybe_grow_with)", "corosensei on_stack / DefaultStack, psm (real)"],
+        stub: &["wall clock (unused)"],
+    },
+    Prop {
+        id: "C24",
+        level: "fault_enumeration",
+        parts: &[Part { scenario: "faults", quick_runs: 10_000, thorough_runs: 150_000, classes: &["fault-resume-error", "healthy-harmed", "fault-message", "fault-not-contained", "crash"] }],
+        quick_wall_s: 45,
+        thorough_wall_s: 600,
+        rule: "fresh process per run; fault kinds {write to address 1, null read, wild read, fault on a grown segment, fault while on a foreign stack, unbounded recursion} x depth 0..29 x 0-4 suspends before the fault x 1-3 healthy coroutines (1-5 steps each) interleaved on the same thread; real SIGSEGV/SIGBUS and the runtime's own handler",
+        assumptions: COMMON_ASSUME,
+        real: &["core/src/coroutine/korosensei.rs (trap handler, raw_resume)", "real SIGSEGV delivery, corosensei trap support"],
+        stub: &["a wrapper around the handler that turns an unrecovered fault into a reported crash"],
+    },
+    Prop {
+        id: "C28",
+        level: "exploration",
+        parts: &[Part { scenario: "timehelp", quick_runs: 20_000, thorough_runs: 300_000, classes: &["deadline-wrong", "resumed-early", "limit-wrong", "slices-wrong", "schedule-error", "crash", "panic-on-caller-thread"] }],
+        quick_wall_s: 40,
+        thorough_wall_s: 600,
+        rule: "deadline clause under simulated clock jumps: get_timeout_time for durations {0, 1ns .. u64::MAX-5, u64::MAX, u64::MAX+1, Duration::MAX} at clocks {now, +1 day, u64::MAX-1s, u64::MAX-3ns} against saturating u128 arithmetic; a coroutine delayed by a huge duration under a clock jumped to one minute before the end of time must not run during the next simulated second; timeval -> limit conversion (zero = unlimited, saturating); the get_slices partition sweep is a pure function of its arguments and rides along as a by-product (not simulated coverage)",
+        assumptions: COMMON_ASSUME,
+        real: &["core/src/common/mod.rs (now, get_timeout_time, get_slices)", "core/src/syscall/unix/mod.rs (get_time_limit)", "core/src/scheduler.rs, coroutine kernel (delay under extreme clocks)"],
+        stub: &["wall clock (simulated, jumped)"],
+    },
+    #[cfg(feature = "preemptive")]
+    Prop {
+        id: "C22",
+        level: "exploration",
+        parts: &[Part { scenario: "preempt", quick_runs: 10_000, thorough_runs: 150_000, classes: &["monitor-set-race", "signal-to-unknown-thread", "coroutine-lost", "preempted-in-syscall", "result-changed", "preempt-late", "not-preempted", "schedule-error", "scheduler-thread-panic", "crash", "deadlock"] }],
+        quick_wall_s: 55,
+        thorough_wall_s: 600,
+        rule: "preemptive build, fresh process per run; 1-4 scheduling threads, each with a scheduler holding a computation of 5..200 ms without yields (or yielding every 4 ms), 0-3 short siblings, optionally a coroutine computing 15..60 ms in a system-call state; the real monitor thread and listener; SIGURG queued by the nix shim and delivered at the target's next scheduling point (optionally late); non-trivial = a preemption was observed",
+        assumptions: COMMON_ASSUME,
+        real: &["core/src/monitor.rs", "core/src/coroutine/korosensei.rs (listener installation)", "core/src/scheduler.rs"],
+        stub: &["SIGURG delivery (queued, delivered at scheduling points)", "HashSet with a modification counter (detects iteration during mutation)"],
+    },
+    #[cfg(feature = "io_uring")]
+    Prop {
+        id: "C27",
+        level: "exploration",
+        parts: &[Part { scenario: "uring", quick_runs: 10_000, thorough_runs: 150_000, classes: &["uring-call-blocked", "uring-wrong-result", "crash", "deadlock"] }],
+        quick_wall_s: 55,
+        thorough_wall_s: 600,
+        rule: "io_uring build against the simulated ring, fresh process per run; 1-12 concurrent hooked read/write/recv/send/pread/pwrite calls with pairwise different buffer lengths from coroutine tasks (1-2 event loops) and plain threads; the simulated kernel answers each submission after 0.1..29 ms with a count or a negative errno derived from the submission's length, so every completion identifies its own call",
+        assumptions: COMMON_ASSUME,
+        real: &["core/src/net/operator/linux/mod.rs (Operator: push_sq, select, backlog)", "core/src/net/event_loop.rs (token, adapt_io_uring, syscall_wait_table)", "core/src/syscall/unix/mod.rs (impl_io_uring* layers)"],
+        stub: &["io-uring rings and probe (simulated in process; the real crate's opcode builders produce the entries)"],
     },
     Prop {
         id: "C09",
